@@ -284,16 +284,24 @@ class RedirectStream(Stream):
     # ---- the property, on the real behaviour ---------------------------------------------------
 
     def twin_original(self, case, probe):
-        """what the original path denotes: the match on the same rules with redirect_defaults off and
-        no strict slashes (endpoint, values) - None when even that does not match"""
-        cfg = dict(case["cfg"], rd=False, strict=False)
-        rules = [dict(r, strict=None) for r in case["rules"]]
-        m, robjs = real_map(cfg, rules)
+        """what the original path denotes: the match on the same rules with redirect_defaults off
+        (no defaults / alias canonicalisation), following only slash / merged-slashes redirects -
+        (endpoint, values), or None when that is not a match"""
+        cfg = dict(case["cfg"], rd=False)
+        m, robjs = real_map(cfg, case["rules"])
         a = real_adapter(m, cfg, case["adapter"])
-        out = real_match(a, robjs, probe[0], probe[1], qa=None)
-        if out.startswith("M "):
-            _, idx, ep, vals = out.split(" ")
-            return ep, vals
+        path = probe[0]
+        for _ in range(MAX_HOPS):
+            out = real_match(a, robjs, path, probe[1], qa=None)
+            if out.startswith("M "):
+                _, idx, ep, vals = out.split(" ")
+                return ep, vals
+            if not out.startswith("R "):
+                return None
+            nxt = hop_target(cfg, case["adapter"], bytes.fromhex(out[2:]).decode().split("?")[0])
+            if nxt is None:
+                return None
+            path = nxt[0]
         return None
 
     def ambiguous(self, case, probe, steps):
